@@ -28,6 +28,7 @@ UNIT_DEFAULT_PROPS["U6b"] = ["C04"]
 UNIT_DEFAULT_PROPS["U5"] = ["C16"]
 UNIT_DEFAULT_PROPS["U12"] = ["C12"]
 UNIT_DEFAULT_PROPS["U11"] = ["C14"]
+UNIT_DEFAULT_PROPS["U13"] = ["C17"]
 
 RUNTIME = ["U6", "U6b", "U7", "U8"] + U9
 
@@ -49,6 +50,7 @@ PROPS = {
     "C12": {"units": ["U2", "U4", "U12"], "safety_units": ["U12"]},
     "C13": {"units": ["U1", "U4"]},
     "C16": {"units": ["U5"], "safety_units": ["U5"]},
+    "C17": {"units": ["U13"], "safety_units": ["U13"]},
     "C18": {"units": ["U1"]},
     "C19": {"units": []},
 }
